@@ -24,6 +24,9 @@ def run(chk: Check) -> None:
     pause_gate(chk)
     pause_ladder(chk)
     no_step_lost(chk)
+    # a wake-up that arrives while the process is paused is not thrown away: it is consumed when the process plays again
+    from .common import barrier_opens_when_empty
+    barrier_opens_when_empty(chk, 'DOM-no-step-lost')
     status_pairing(chk)
     never_raise(chk)
 
@@ -154,6 +157,20 @@ def no_step_lost(chk: Check) -> None:
             ok = ok2
     chk.ob('DOM-no-step-lost', dp, ok, 'whenever a next state is handed to _do_pause it is entered on every non-raising path (the step that was in flight '
            'when the pause was requested is not lost)', kind='transition-when-given')
+    # ... and it is entered FIRST: the pause hooks (user code, listeners that write checkpoints) must see the outcome of the interrupted step, not the RUNNING
+    # state whose function has already been executed -- a checkpoint taken there, or a hook that raises there, runs that step a second time (C06: the resume
+    # value is delivered twice; C08: a completed step is executed again on resume)
+    hooks_ = [n for n in cfg.nodes if any(last_name(c) == 'call_with_super_check' and c.args and norm(c.args[0]) in ('self.on_pausing', 'self.on_paused') for c in _calls(n))]
+    tests_n = [t for t in cfg.nodes if t.kind == 'test' and ('none', nparam) in ff.cond_atoms(t.ast.test, False) | ff.cond_atoms(t.ast.test, True)]
+    ok_first = bool(hooks_) and bool(trans)
+    for h in hooks_:
+        # every way to a pause hook has either made the transition or found that there is no next state
+        ok_first &= cfg.must_pass(cfg.entry, [h], lambda m: m in trans or m in tests_n, edge_ok=no_exc) and not any(
+            h.id in cfg.reachable([s_ for s_, l_ in t.succ if l_ == ('false' if ('none', nparam) in ff.cond_atoms(t.ast.test, True) else 'true')], avoid=lambda m: m in trans, edge_ok=no_exc, include_src=True)
+            for t in tests_n)
+        ok_first &= not any(t_.id in cfg.reachable([h], edge_ok=no_exc) for t_ in trans)
+    chk.ob('DOM-no-step-lost', dp, ok_first, 'the next state is entered before the pause hooks run (on_pausing / on_paused see, and a checkpoint taken there records, the outcome of the '
+           'interrupted step -- not the state whose step function has already run)', node=hooks_[0].ast if hooks_ else None, kind='transition-before-pause-hooks')
     hooks = [last_name(c) == 'call_with_super_check' and norm(c.args[0]) for c in calls_in_func(dp, 'call_with_super_check')]
     chk.ob('DOM-no-step-lost', dp, 'self.on_paused' in hooks, '_do_pause runs the paused hook (which creates the pause future)', kind='on-paused-called')
     cia = prog.func('processes.Process._create_interrupt_action')
@@ -223,6 +240,14 @@ def status_pairing(chk: Check) -> None:
     mp = op.params[1] if len(op.params) > 1 else 'msg'
     ok = any(last_name(c) == 'set_status' and [norm(a) for a in c.args] == [mp] for o in over for c in _calls(o))
     chk.ob('PAIR-status', op, ok, 'the pause message becomes the status', kind='pause-message-status')
+    # both the save and the restore go through set_status(): it has to store WHATEVER it is given -- None, the status of a process that never
+    # reported one, included (a "None means keep the last message" shortcut leaves the pause message in place after play())
+    ss = prog.func('processes.Process.set_status')
+    scfg = cfg_of(ss)
+    sp = ss.params[1] if len(ss.params) > 1 else 'status'
+    sets_ = [n for n in scfg.nodes if n.kind == 'stmt' and isinstance(n.ast, ast.Assign) and norm(n.ast.targets[0]) == 'self._status' and norm(n.ast.value) == sp]
+    ok = bool(sets_) and scfg.must_pass(scfg.entry, [scfg.exit], lambda m: m in sets_, edge_ok=no_exc)
+    chk.ob('PAIR-status', ss, ok, 'set_status(x) stores x on every path, whatever x is (the restore after a pause hands it the saved status, which may be None)', kind='set-status-stores')
     pl = prog.func('processes.Process.on_playing')
     pcfg = cfg_of(pl)
     restore = [n for n in pcfg.nodes if any(last_name(c) == 'set_status' and [norm(a) for a in c.args] == ['self._pre_paused_status'] for c in _calls(n))]
